@@ -21,6 +21,21 @@ pub fn time_to_slot(time: i128, cursor: &ChainPoint) -> i128 {
     current_slot + (time_diff / 1000)
 }
 
+/// Same as `slot_to_time`, or `None` when the result does not fit an i128.
+pub fn checked_slot_to_time(slot: i128, cursor: &ChainPoint) -> Option<i128> {
+    let current_time = i128::try_from(cursor.timestamp).ok()?;
+    let time_diff = slot.checked_sub(cursor.slot as i128)?;
+    current_time.checked_add(time_diff.checked_mul(1000)?)
+}
+
+/// Same as `time_to_slot`, or `None` when the result does not fit an i128.
+pub fn checked_time_to_slot(time: i128, cursor: &ChainPoint) -> Option<i128> {
+    let current_slot = cursor.slot as i128;
+    let current_time = i128::try_from(cursor.timestamp).ok()?;
+    let time_diff = time.checked_sub(current_time)?;
+    current_slot.checked_add(time_diff / 1000)
+}
+
 // Compute min utxo lovelace according to spec
 // https://cips.cardano.org/cip/CIP-55
 pub fn compute_min_utxo(
